@@ -637,7 +637,7 @@ class BaseWorklist(list):
         destination.add(destination_wells, volume, label=label, compositions=[src_composition] * n_dst)
         if destination is source:
             # one history entry per operation, like in transfer()
-            source.condense_log(2, label=label)
+            source.condense_log(2, label=label, literal=True)
 
         # hand over to low-level command implementation
         self.comment(label)
